@@ -461,7 +461,89 @@ def bound(tier):
     }
 
 
+# ----------------------------------------------------------------------------- histories
+def md_in_domain(t):
+    """C01's metadata domain: the same categories on every id, each category homogeneous (all text, all
+    numeric/boolean, or lists of non-empty text under taxonomy / collapsed_ids)"""
+    for axis in ('observation', 'sample'):
+        md = t.metadata(axis=axis)
+        if md is None:
+            continue
+        keys = [tuple(sorted(e.keys())) for e in md]
+        if len(set(keys)) != 1:
+            return False
+        for k in keys[0]:
+            vals = [e[k] for e in md]
+            if all(isinstance(v, str) for v in vals):
+                continue
+            if all(_is_number(v) for v in vals):
+                continue
+            if k in ('taxonomy', 'collapsed_ids') and all(
+                    isinstance(v, (list, tuple)) and v and all(isinstance(x, str) and x for x in v) for v in vals):
+                continue
+            return False
+    return True
+
+
+def history_roundtrip(t, m, report):
+    """"whatever operation history produced the table": HDF5 write + read in every state the history explorer
+    reaches (states outside C01's metadata domain are skipped and counted)"""
+    import h5py
+    from biom import Table
+    if 0 in t.shape:
+        return
+    dense = np.asarray(t.matrix_data.toarray(), float)
+    if not np.isfinite(dense).all():
+        return
+    if not md_in_domain(t):
+        report.count('history:skipped-metadata-outside-domain')
+        return
+    src = observe_source(t)
+    name = 'c01-hist-%d-%d.h5' % (os.getpid(), id(t))
+    fh = h5py.File(name, 'w', driver='core', backing_store=False)
+    try:
+        try:
+            t.to_hdf5(fh, 'verif', creation_date=DATE)
+        except Exception as e:
+            report('history:writer-raised:' + type(e).__name__, 'to_hdf5 raised %s: %s' % (type(e).__name__, e))
+            return
+        try:
+            r = Table.from_hdf5(fh)
+        except Exception as e:
+            report('history:reader-raised:' + type(e).__name__, 'from_hdf5 raised %s: %s' % (type(e).__name__, e))
+            return
+    finally:
+        fh.close()
+    if list(O.ids(r, 'observation')) != src['obs_ids'] or list(O.ids(r, 'sample')) != src['samp_ids']:
+        report('history:read-ids', 'ids %r / %r, source %r / %r' % (O.ids(r, 'observation'), O.ids(r, 'sample'),
+                                                                   src['obs_ids'], src['samp_ids']))
+        return
+    if O.dense_bits(r) != src['bits']:
+        report('history:read-values', 'matrix %r, source %r' % (r.matrix_data.toarray().tolist(), dense.tolist()))
+        return
+    for axis, key in (('observation', 'obs_md'), ('sample', 'samp_md')):
+        d = md_diff(md_of(r, axis), src[key])
+        if d:
+            report('history:read-metadata:' + d[0], '%s metadata: %s' % (axis, d[1]))
+            return
+    if r.type != src['type']:
+        report('history:read-type', 'type %r, source %r' % (r.type, src['type']))
+        return
+    if O.content(t) != (tuple(src['obs_ids']), tuple(src['samp_ids'])) + O.content(t)[2:]:
+        pass
+    report.count('clause:history-roundtrip')
+
+
+def history_spec(depth):
+    from .. import explorer as E
+    from .. import ops as OPS
+    return E.Spec(OPS.start_tables(), OPS.all_ops(), depth, check_ops=(), on_state=history_roundtrip,
+                  label='histories-d%d' % depth)
+
+
 def run(run):
+    from .. import explorer as E
+    E.explore(run, history_spec(2 if run.quick else 3))
     cs = cases(run.tier, run.seed)
     P.run_cases(run, cs, check)
     c = run.acc.counters
@@ -469,7 +551,7 @@ def run(run):
     run.extra['layout_classes'] = {k[7:]: v for k, v in c.items() if k.startswith('layout:')}
     run.extra['bound'] = bound(run.tier)
     run.extra['cases'] = len(cs)
-    need = ['clause:source-unchanged', 'clause:ids', 'clause:values', 'clause:metadata',
+    need = ['clause:history-roundtrip', 'clause:source-unchanged', 'clause:ids', 'clause:values', 'clause:metadata',
             'clause:metadata-present', 'clause:type', 'clause:table_id', 'clause:table_id-placeholder',
             'clause:generated_by', 'clause:creation_date', 'clause:group-metadata',
             'clause:group-metadata-present']
@@ -495,4 +577,7 @@ def run(run):
 
 
 def replay(case):
+    if 'history' in case:
+        from .. import explorer as E
+        return E.replay_history(history_spec(len(case['history'])), case)
     return P.replay_case(check, case)
